@@ -45,11 +45,23 @@
     argument tuple.  The frag2 theorems speak about [FragSem.cand_seq]: the
     candidate's rows plus the implied rows computed by the reference semantics'
     own [Sem.derive_row]; without implied factors [cand_seq] is [tseq_of_run]
-    ([Frag1Thms.frag1_cand_seq]).
-    Missing: crossed
-    within-trial derived factors with uncrossed sources, LatinSquare, preambles /
-    complex windows / sustained crossings (where the sampled crossing itself is
-    checked by rejection).  Outside the fragment the property is decided per run by the
+    ([Frag1Thms.frag1_cand_seq]) and DERIVED FACTORS IN THE SAMPLED CROSSING
+    (one crossing then): within-trial factors (width 1) of the crossing that
+    read plain factors of [act_design], crossed or not.  The crossing instances
+    are the level combinations that survive
+    [is_excluded_or_inconsistent_combination]; the uncrossed factors a derived
+    factor reads are the SOURCE factors, whose level combinations are filtered
+    per instance by the derived predicates ([_valid_source_combinations_indices]);
+    a key carries, besides the permutation of the instances, one index into the
+    admitted source combinations per trial.  Every instance must admit a source
+    combination ([Frag.sources_ok], decided on the record).  An [Exclude] of a
+    source level is NOT applied when the word is drawn - such candidates are
+    rejected ([Frag0Example.ex7_flat]: 96 keys, 24 accepted).  The number of keys
+    of a round then has no closed form; it comes from the general counting
+    theorem (Random/KeysCount.v).
+    Missing: derived factors with derived or complex sources, transition /
+    window factors, LatinSquare, preambles / complex windows / sustained
+    crossings (where the sampled crossing itself is checked by rejection).  Outside the fragment the property is decided per run by the
     search of harness/props/c05.py and the C04 harness (exhausted RandomGen vs.
     oracle). *)
 From Coq Require Import ZArith List.
@@ -108,3 +120,14 @@ Example C04_example_implied :
     (decode_key ex5_flat {| k_pre := 0%Z; k_rounds := nil; k_left := Some (4%Z, cons 0%Z (cons 0%Z (cons 0%Z nil)), nil) |})
   = Some (cons (cons (Some 0) (cons (Some 1) (cons (Some 0) nil))) (cons (cons (Some 1) (cons (Some 0) (cons (Some 1) nil))) nil)).
 Proof. split; [exact ex5_frag2|]. split; [exact ex5_frag1|]. split; [exact ex5_nkeys|]. split; [exact ex5_sound | exact ex5_decode]. Qed.
+
+(** a derived factor in the sampled crossing (Stroop: color x congruent, the word is a source factor):
+    96 keys, all accepted; with Exclude(word, green) 24 of the 96 are accepted *)
+Example C04_example_derived :
+  frag2 ex6_flat = true /\ has_derived ex6_flat = true /\ length (keys_of ex6_flat) = 96 /\
+  length (accepted_keys ex6_flat) = 96 /\ check_sound ex6_flat = true /\
+  frag2 ex7_flat = true /\ length (keys_of ex7_flat) = 96 /\ length (accepted_keys ex7_flat) = 24 /\ check_sound ex7_flat = true.
+Proof.
+  split; [exact ex6_frag2|]. split; [exact ex6_derived|]. split; [exact ex6_nkeys|]. split; [exact ex6_nacc|]. split; [exact ex6_sound|].
+  split; [exact ex7_frag2|]. split; [exact ex7_nkeys|]. split; [exact ex7_nacc | exact ex7_sound].
+Qed.
